@@ -101,7 +101,13 @@ def exec_resample(cfg, conc, D):
         interp = sch[0] if (conc.get('interp_as') == 'str' and len(set(sch)) == 1) else list(sch)
         op = odl.Resampling(A, B, interp=interp)
         x = A.element(L.np_values(cfg['f'], A.shape, dt))
-        y = op(x)
+        if conc.get('inplace'):
+            y = B.element(np.full(B.shape, np.nan, dtype=dt))      # garbage pre-fill
+            r = op(x, out=y)
+            if r is not y:
+                raise AssertionError('op(x, out=y) did not return y')
+        else:
+            y = op(x)
         if y not in B:
             ev['err'] = 'RangeError'
         else:
@@ -193,7 +199,7 @@ def signature(ev, plan, clause):
         return sig
     sch = ev.get('schemes') or plan.get('schemes')
     scl = 'nearest' if all(s == 'nearest' for s in sch) else ('linear' if all(s == 'linear' for s in sch) else 'mixed')
-    sig = {'api': conc['which'] if plan['k'] == 'interp' else conc.get('api', 'Resampling'),
+    sig = {'api': conc['which'] if plan['k'] == 'interp' else conc.get('api', 'Resampling') + ('/out' if conc.get('inplace') else ''),
            'dtype': dtc, 'scheme': scl, 'ndim': nd, 'clause': clause}
     if clause == 'raised':
         sig['error'] = ev['err']
@@ -262,10 +268,9 @@ def plans_interp(cfg, qs, rot, thorough):
     i = rot
     for n_dt, dt in enumerate(dts):
         combos = list(itertools.product(whichs, L.FORMS))
-        if not thorough:
+        if not thorough:        # quick: three rotating forms for the first dtype, one for each further dtype
             combos = [(whichs[(i + j) % len(whichs)], form) for j, form in enumerate(L.FORMS)]
-            if n_dt > 0:        # further dtypes: two rotating forms
-                combos = [combos[i % 5], combos[(i + 2) % 5]]
+            combos = [combos[i % 5], combos[(i + 2) % 5], combos[(i + 4) % 5]] if n_dt == 0 else [combos[(i + 1) % 5]]
         i += 1
         for which, form in combos:
             out.append(({'k': 'interp', 'cvs': cvs, 'f': f, 'schemes': schemes, 'xs': xs, 'pts': pts, 'D': D,
@@ -291,8 +296,10 @@ def plans_resample(case, rot, thorough):
     D = L.lcm_den(exp, L.lcm_den(cfg['f']))
     real = L.is_real_vals(cfg['f'])
     dts = (['float64'] + (['float32'] if D <= 256 else [])) if real else (['complex128'] + (['complex64'] if D <= 256 else []))
-    return [({'k': 'resample', 'cfg': cfg, 'D': D, 'schemes': cfg['schemes'], 'conc': {'api': 'Resampling', 'dtype': dt, 'interp_as': ias}}, exp, None)
-            for dt in dts for ias in (['str', 'list'] if thorough else [['str', 'list'][rot % 2]])]
+    return [({'k': 'resample', 'cfg': cfg, 'D': D, 'schemes': cfg['schemes'],
+              'conc': {'api': 'Resampling', 'dtype': dt, 'interp_as': ias, 'inplace': ip}}, exp, None)
+            for j, dt in enumerate(dts) for ias in (['str', 'list'] if thorough else [['str', 'list'][rot % 2]])
+            for ip in ([False, True] if thorough else [bool((rot + j) % 2)])]
 
 
 def plans_deform(case, rot, thorough):
@@ -509,7 +516,7 @@ def run(ctx):
         'nearest is compared everywhere (closest node = edge node)',
         'integer and string value types are claimed for nearest_interpolator only (per-axis / linear arithmetic on integers raises in NumPy)',
         'grids for interpolation have >= 2 nodes per axis (a one-node axis has no surrounding nodes); sampling includes one-node axes',
-        'Resampling is exercised out-of-place (its in-place protocol belongs to C03)']
+        'Resampling is exercised out-of-place and in place (out pre-filled with NaN)']
     import time
     T = [time.time()]
     phase = {}
@@ -522,9 +529,12 @@ def run(ctx):
     jobs = []
     for m in MODES:
         out = os.path.join(work, 'exp_%s.ndjson' % m)
-        jobs.append(('export-' + m, 'MC_Interp_export.cfg', {'INTERP_MODE': m, 'INTERP_BIG': big, 'OUT_FILE': out}, 1))
-        jobs.append(('model-' + m, 'MC_Interp_check.cfg', {'INTERP_MODE': m, 'INTERP_BIG': big, 'OUT_FILE': os.devnull},
-                     6 if m in ('interp2', 'interp3') else 2))
+        if m in ('interp2', 'interp3'):
+            # large modes: invariants with several workers, export (one JSON line per state) separately with one worker
+            jobs.append(('export-' + m, 'MC_Interp_export.cfg', {'INTERP_MODE': m, 'INTERP_BIG': big, 'OUT_FILE': out}, 1))
+            jobs.append(('model-' + m, 'MC_Interp_check.cfg', {'INTERP_MODE': m, 'INTERP_BIG': big, 'OUT_FILE': os.devnull}, 4))
+        else:
+            jobs.append(('model+export-' + m, 'MC_Interp_both.cfg', {'INTERP_MODE': m, 'INTERP_BIG': big, 'OUT_FILE': out}, 1))
     jobs.append(('nonvacuity', 'MC_Interp_bogus.cfg', {'INTERP_MODE': 'interp1', 'INTERP_BIG': '0', 'OUT_FILE': os.devnull}, 1))
 
     def go(j):
